@@ -311,6 +311,7 @@ fn cmd_check(args: &[String]) -> i32 {
     }
     let mut harness_errors = vec![];
     let mut known: BTreeMap<String, u64> = BTreeMap::new();
+    let mut known_sigs: BTreeMap<String, (u64, u64)> = BTreeMap::new();
     let mut fresh_violations: Vec<(u64, u64, Violation, Value)> = vec![];
     for r in &results {
         agg.add(r);
@@ -331,6 +332,8 @@ fn cmd_check(args: &[String]) -> i32 {
         for v in &r.violations {
             if let Some(f) = findings.open_match(&id, &v.sig) {
                 *known.entry(format!("{} {}", f.id, f.what)).or_insert(0) += 1;
+                let e = known_sigs.entry(format!("{} <- {} [{}]", f.id, v.sig.clone().unwrap_or_default(), v.class)).or_insert((0, r.idx));
+                e.0 += 1;
             } else {
                 fresh_violations.push((r.idx, r.seed, v.clone(), r.spec.clone().unwrap_or(Value::Null)));
             }
@@ -344,6 +347,9 @@ fn cmd_check(args: &[String]) -> i32 {
         }
         for (k, (n, first)) in &hist {
             println!("TRIAGE {:6} x {}  (first run {})", n, k, first);
+        }
+        for (k, (n, first)) in &known_sigs {
+            println!("TRIAGE-KNOWN {:6} x {}  (first run {})", n, k, first);
         }
     }
     for (k, n) in &known {
